@@ -11,7 +11,7 @@ import math
 import numpy as np
 from scipy import sparse as sp
 
-from checks.common import comps, hash_tag, to_sparse, relayout, xf_build, xf_names
+from checks.common import comps, hash_tag, to_sparse, relayout, xf_build, xf_names, canonical_probes, orthonormal_completion
 from qmc import gen as G
 from qmc import oracle as O
 from qmc.loader import load
@@ -81,6 +81,14 @@ def cases(tier, seed):
         out.append({"key": f"compmask/{m}x{n}", "grp": "compmask", "m": m, "n": n})
     for m, n in itertools.product(range(1, 5), repeat=2):
         out.append({"key": f"xf/{m}x{n}", "grp": "xf", "m": m, "n": n})
+    # Hermitian indefinite matrices whose diagonal is strictly positive (flat eigenbasis: every |Q_ik|^2 = 1/n) although the eigenvalue of
+    # largest modulus is negative, and the mirror images; spectral norm = max |lambda|
+    for n in (2, 4, 8):
+        for si in range(4):
+            out.append({"key": f"hermflat/n={n}/s={si}", "grp": "hermflat", "m": n, "n": n, "si": si})
+    # matrices whose dominant singular direction is quaternion-orthogonal to a canonical fixed probe vector, the probe being the second one
+    for (m, n) in ((5, 4), (4, 5), (6, 6)):
+        out.append({"key": f"probe/{m}x{n}", "grp": "probe", "m": m, "n": n})
     return out
 
 
@@ -241,7 +249,7 @@ def run_case(case, seed):
                     for key in ("fro", "1", "inf", "2"):
                         if not nabc[key] <= na[key] * nb[key] * ncc[key] * (1 + 1e-12) + 1e-300:
                             fails.append(fail("submultiplicative3", f"ord={key}", ord=key, grp="sub"))
-    elif grp in ("large", "compmask", "xf"):
+    elif grp in ("large", "compmask", "xf", "hermflat", "probe"):
         m, n = case["m"], case["n"]
         mats_ = []
         if grp == "large":
@@ -255,6 +263,32 @@ def run_case(case, seed):
         elif grp == "xf":
             for nm_ in xf_names(m, n):
                 mats_.append(xf_build(nm_, m, n, fill))
+        elif grp == "probe":
+            for side in ("right", "left"):
+                N_ = n if side == "right" else m
+                for pname, g in canonical_probes(N_):
+                    cols = np.concatenate([g, fill.quat(N_, 2, bits=4, lo=-24, hi=24)], axis=1)
+                    Qp = orthonormal_completion(cols)  # column 0 = probe direction, columns 1,2 orthogonal to it
+                    Wp = orthonormal_completion(fill.quat(m if side == "right" else n, 3, bits=4, lo=-24, hi=24))
+                    # sigma = 3 on a direction orthogonal to the probe, 2 on the probe itself, 0.01 on a third
+                    Ap = 3.0 * O.qmatmul(Wp[:, 0:1], O.qH(Qp[:, 1:2])) + 2.0 * O.qmatmul(Wp[:, 1:2], O.qH(Qp[:, 0:1])) + 0.01 * O.qmatmul(Wp[:, 2:3], O.qH(Qp[:, 2:3]))
+                    mats_.append(Ap if side == "right" else O.qH(Ap))
+        elif grp == "hermflat":
+            Hd = np.array([[1.0]])
+            while Hd.shape[0] < n:
+                Hd = np.block([[Hd, Hd], [Hd, -Hd]])
+            Qf = np.zeros((n, n, 4))
+            for i in range(n):
+                ph = G.SIGNED_UNITS[(3 * i + case["si"]) % 8].astype(float)
+                for k_ in range(n):
+                    Qf[i, k_] = ph * Hd[i, k_] / math.sqrt(n)
+            base_l = [-3.0, 2.6, 2.2, 1.8, 1.5, 1.25, 1.0, 0.5][:n] if n > 2 else [-3.0, 3.5]
+            lam = {0: base_l, 1: [-x for x in base_l], 2: [base_l[0] * 2] + base_l[1:], 3: base_l[::-1]}[case["si"]]
+            Ah = O.qmatmul(O.qmatmul(Qf, G.diag_real(lam, n, n)), O.qH(Qf))
+            Ah = 0.5 * (Ah + O.qH(Ah))
+            for i in range(n):
+                Ah[i, i, 1:] = 0.0
+            mats_ += [Ah, -Ah, O.qmatmul(Ah, Ah)]
         else:
             for mask in G.COMPONENT_MASKS:
                 B_ = fill.quat_int(m, n, -4, 4).astype(float)
